@@ -437,6 +437,9 @@ def r_branch(ctx: Ctx, model):
 
 def run(ctx: Ctx):
     model = load(ctx.root)
+    # "only the requested branch is used" when the branches are guessed: the split itself (shared with C03, interpreted on concrete sequences)
+    from .C03 import r_split_values
+    r_split_values(ctx, model, prop="C12")
     ctx.assume("scipy.optimize.least_squares returns res.x, res.fun, res.success of one optimisation")
     r_fit(ctx, model)
     r_data(ctx, model)
